@@ -308,3 +308,16 @@ func (in *Interp) hashUF(code uint64, n int, data []*term.T) []*term.T {
 	in.hashApps = append(in.hashApps, hashApp{code, n, data, out})
 	return out
 }
+
+func init() {
+	reg := func(name string, f Intrinsic) { intrinsics[vrtPkg+"."+name] = f }
+	reg("Imp", func(in *Interp, fr *frame, a []Value, c *ssa.CallCommon) Value {
+		return in.M.Implies(a[0].(*term.T), a[1].(*term.T))
+	})
+	reg("And", func(in *Interp, fr *frame, a []Value, c *ssa.CallCommon) Value {
+		return in.M.And(a[0].(*term.T), a[1].(*term.T))
+	})
+	reg("Or", func(in *Interp, fr *frame, a []Value, c *ssa.CallCommon) Value {
+		return in.M.Or(a[0].(*term.T), a[1].(*term.T))
+	})
+}
